@@ -33,6 +33,7 @@ size_t SPS[MAXM + 1], SPT[MAXM + 1]; W SPW[MAXM + 1]; size_t vp_ns;      /* the 
 size_t TR[MAXM + 1];                   /* _edge_spanner_to_g */
 size_t DROP[MAXM + 1]; size_t vp_nd;   /* _non_spanner_edges */
 int GST[MAXM + 1]; size_t GIDX[MAXM + 1];   /* ghost: fate of the edge at each sorted position */
+_Bool GRV[MAXM + 1]; size_t GNS[MAXM + 1], GQS[MAXM + 1], GQT[MAXM + 1];   /* ghost: answer of is_bfs_reachable at that position, on how many spanner edges, for which endpoints */
 """
 
 
@@ -55,35 +56,37 @@ def _construct(bounded, cap=12):
         (r"parmcb::is_bfs_reachable\(_spanner, ", "reach(", 1, "overload-resolution", "callee -> its contract"),
         (r"\b_k\b", "vp_k", 1, "type-binding", ""),
         (r"Edge spanner_e = std::get<0>\(\s*boost::add_edge\(spanner_v, spanner_u, _spanner\)\);",
-         "size_t spanner_e = vp_ns; SPS[vp_ns] = spanner_v; SPT[vp_ns] = spanner_u; vp_ns++;", 1, "container-api",
+         "size_t spanner_e = vp_ns; SPS[vp_ns] = spanner_v; SPT[vp_ns] = spanner_u; vp_ns++; GRV[ei] = vp_last_reach; GNS[ei] = vp_last_ns; GQS[ei] = vp_last_s; GQT[ei] = vp_last_t;", 1, "container-api",
          "boost::add_edge on the spanner = append (source,target), descriptor = ordinal"),
         (r"boost::get\(_weight_map, (\w+)\)", r"WT[\1]", (0, 3), "container-api", "the caller's weight map"),
         (r"boost::put\(boost::edge_weight, _spanner, (\w+), ([^;]*)\);", r"SPW[\1] = \2;", (0, 1), "container-api",
          "edge_weight property of the spanner edge"),
         (r"_edge_spanner_to_g\[spanner_e\] = e;", "TR[spanner_e] = e; GST[ei] = 1; GIDX[ei] = spanner_e;", 1, "ghost", "map insert + ghost: position ei retained as spanner edge"),
-        (r"_non_spanner_edges\.push_back\(e\);", "DROP[vp_nd] = e; GST[ei] = 2; GIDX[ei] = vp_nd; vp_nd++;", 1, "ghost", "push_back + ghost: position ei dropped"),
+        (r"_non_spanner_edges\.push_back\(e\);", "DROP[vp_nd] = e; GST[ei] = 2; GIDX[ei] = vp_nd; vp_nd++; GRV[ei] = vp_last_reach; GNS[ei] = vp_last_ns; GQS[ei] = vp_last_s; GQT[ei] = vp_last_t;", 1, "ghost", "push_back + ghost: position ei dropped"),
     ], log)
     inv = ("__CPROVER_assigns(ei, ei_end, vp_ns, vp_nd, vp_thrown, __CPROVER_object_whole(SPS), __CPROVER_object_whole(SPT), __CPROVER_object_whole(SPW), "
-           "__CPROVER_object_whole(TR), __CPROVER_object_whole(DROP), __CPROVER_object_whole(GST), __CPROVER_object_whole(GIDX))\n"
+           "__CPROVER_object_whole(TR), __CPROVER_object_whole(DROP), __CPROVER_object_whole(GST), __CPROVER_object_whole(GIDX), __CPROVER_object_whole(GRV), __CPROVER_object_whole(GNS), __CPROVER_object_whole(GQS), __CPROVER_object_whole(GQT), vp_last_reach, vp_last_ns, vp_last_s, vp_last_t)\n"
            "__CPROVER_loop_invariant(ei <= vp_m && vp_ns <= ei && vp_nd <= ei && vp_ns + vp_nd == ei && !vp_thrown)\n"
            "__CPROVER_loop_invariant(p0 < ei ==> ((GST[p0] == 1 && GIDX[p0] < vp_ns && TR[GIDX[p0]] == SORTED[p0] && SPS[GIDX[p0]] == MAP[SRC[SORTED[p0]]] "
            "&& SPT[GIDX[p0]] == MAP[TGT[SORTED[p0]]] && SPW[GIDX[p0]] == WT[SORTED[p0]]) || (GST[p0] == 2 && GIDX[p0] < vp_nd && DROP[GIDX[p0]] == SORTED[p0])))\n"
+           "__CPROVER_loop_invariant(p0 < ei ==> (((GST[p0] == 2) == (GRV[p0] == 1)) && GQS[p0] == MAP[SRC[SORTED[p0]]] && GQT[p0] == MAP[TGT[SORTED[p0]]] && GNS[p0] <= vp_ns && (GST[p0] == 1 ==> GNS[p0] == GIDX[p0])))\n"
            "__CPROVER_decreases(vp_m - ei)")
     if not bounded:
         loop = X.splice_loop_contracts(loop, {0: inv}, log)
     fn = r"""
 /* contract of is_bfs_reachable as used here: any answer; the caller owes it distinct endpoints and the hop bound 2k-1 */
+bool vp_last_reach; size_t vp_last_ns, vp_last_s, vp_last_t;      /* ghost: the last question put to is_bfs_reachable and its answer */
 bool reach(size_t s, size_t t, size_t max_hops)
 __CPROVER_requires(s != t && max_hops == 2 * vp_k - 1)
-__CPROVER_assigns()
-__CPROVER_ensures(__CPROVER_return_value <= 1)
+__CPROVER_assigns(vp_last_reach, vp_last_ns, vp_last_s, vp_last_t)
+__CPROVER_ensures(__CPROVER_return_value <= 1 && vp_last_reach == __CPROVER_return_value && vp_last_ns == vp_ns && vp_last_s == s && vp_last_t == t)
 ;
 void construct(size_t p0)
 __CPROVER_requires(vp_m <= MAXM && p0 < vp_m && vp_ns == 0 && vp_nd == 0 && vp_thrown == 0 && vp_k >= 1 && vp_k <= 1000000)
 /* simple input graph and an injective vertex map (established by the vertex loop just above) */
 __CPROVER_requires(SORTED[p0] < vp_m && SRC[SORTED[p0]] <= MAXM && TGT[SORTED[p0]] <= MAXM)
 __CPROVER_assigns(vp_ns, vp_nd, vp_thrown, __CPROVER_object_whole(SPS), __CPROVER_object_whole(SPT), __CPROVER_object_whole(SPW),
-                  __CPROVER_object_whole(TR), __CPROVER_object_whole(DROP), __CPROVER_object_whole(GST), __CPROVER_object_whole(GIDX))
+                  __CPROVER_object_whole(TR), __CPROVER_object_whole(DROP), __CPROVER_object_whole(GST), __CPROVER_object_whole(GIDX), __CPROVER_object_whole(GRV), __CPROVER_object_whole(GNS), __CPROVER_object_whole(GQS), __CPROVER_object_whole(GQT), vp_last_reach, vp_last_ns, vp_last_s, vp_last_t)
 /* retained and dropped edges partition the edge set */
 __CPROVER_ensures(!vp_thrown ==> vp_ns + vp_nd == vp_m)
 /* a retained edge is in the spanner with the mapped endpoints, the INPUT edge's weight and a translation back to it */
@@ -91,6 +94,8 @@ __CPROVER_ensures(!vp_thrown ==> (GST[p0] == 1 || GST[p0] == 2))
 __CPROVER_ensures((!vp_thrown && GST[p0] == 1) ==> (GIDX[p0] < vp_ns && TR[GIDX[p0]] == SORTED[p0] && SPS[GIDX[p0]] == MAP[SRC[SORTED[p0]]]
                                                     && SPT[GIDX[p0]] == MAP[TGT[SORTED[p0]]] && SPW[GIDX[p0]] == WT[SORTED[p0]]))
 __CPROVER_ensures((!vp_thrown && GST[p0] == 2) ==> (GIDX[p0] < vp_nd && DROP[GIDX[p0]] == SORTED[p0]))
+/* the decision: the edge at position p0 is dropped IFF is_bfs_reachable answered true when asked for its mapped endpoints on the spanner built from the earlier positions */
+__CPROVER_ensures(!vp_thrown ==> (((GST[p0] == 2) == (GRV[p0] == 1)) && GQS[p0] == MAP[SRC[SORTED[p0]]] && GQT[p0] == MAP[TGT[SORTED[p0]]] && GNS[p0] <= vp_ns && (GST[p0] == 1 ==> GNS[p0] == GIDX[p0])))
 {
   size_t ei, ei_end;
   %s
@@ -107,16 +112,16 @@ void h_construct(void) {
 """ % loop
     name = "K17a_construct_spanner" + ("_bounded" if bounded else "")
     spec = dict(unit=name, site="K17a_construct_spanner", lang="c", source=rel + " (edge loop of construct_spanner)",
-                text=PRE % dict(MAXM="4" if bounded else str(cap)) + fn, entry="h_construct", enforce="construct", replace=["reach"], rewrites=log, timeout=900,
+                text=PRE % dict(MAXM="4" if bounded else str(cap)) + fn, entry="h_construct", enforce="construct", replace=["reach"], rewrites=log, timeout=900, split=16,
                 dropped=["sorting and the vertex loop above (std::sort contract / vertex bijection are preconditions); logging"],
-                assumptions=["is_bfs_reachable is represented by an arbitrary boolean answer: stretch and girth (which depend on its answer) stay bounded-only (e3_approx[spanner])",
+                assumptions=["is_bfs_reachable is represented by an arbitrary boolean answer whose value decides the edge's fate (proved: dropped <=> answered true, asked for the mapped endpoints with hop bound 2k-1 on the spanner built so far); what the answer means is K17b; stretch and girth follow informally (DESIGN 10.8) and are enforced bounded (e3_approx[spanner])",
                              "Boost add_edge / property put / std::map / std::vector bound to arrays as stated in the rewrite log"],
                 trusted=["cbmc 6.11 + DFCC, SAT back end"])
     if bounded:
         spec.update(mode="bounded", bound="m<=4, unwound", unwind=7, functions={"construct_spanner edge loop": "bounded(m<=4)"})
     else:
         spec.update(mode="proof", bound="loop closed by its contract; m <= %d only because" % cap + " simple-graph facts about the ghost tables are stated by an unwound harness loop",
-                    loop_contracts=True, unwind=cap + 3, fallback=lambda: _construct(True), functions={"construct_spanner edge loop": "proved(m<=%d): partition" % cap + ", translation, endpoints, weights; hop bound 2k-1 owed to is_bfs_reachable"})
+                    loop_contracts=True, unwind=max(cap + 3, 26), fallback=lambda: _construct(True), functions={"construct_spanner edge loop": "proved(m<=%d): partition" % cap + ", translation, endpoints, weights; hop bound 2k-1 owed to is_bfs_reachable"})
     return spec
 
 
